@@ -360,23 +360,34 @@ def gen_spec(r, size="normal"):
     if r.random() < 0.4:
         sp["location"] = None
     else:
+        # every optional member of every optional group is given / left out INDEPENDENTLY of its siblings (a partially
+        # populated group — a date without a year, a latitude without a longitude, a translation without a scaling — is as
+        # much content as a complete one): GROUPS below lists the groups, tag_groups() counts which subsets were hit
         loc = {"geo_name_id": None, "lat": None, "lon": None, "geo": None, "env": None}
-        if r.random() < 0.7:
+        p_ = r.choice([0.0, 0.5, 0.5, 1.0])
+        if r.random() < p_:
             loc["geo_name_id"] = r.choice([2867714, 1, -999, 2 ** 31 - 1, -2 ** 31])
+        if r.random() < p_:
             loc["lat"] = r.choice([48.262333, 999, r.uniform(-90, 90)])
+        if r.random() < p_:
             loc["lon"] = r.choice([11.668775, 999, r.uniform(-180, 180)])
         if r.random() < 0.5:
             geo = {"ref": r.choice(["+proj=utm +zone=32 +ellps=WGS84", "", "EPSG:4326"]), "x": None, "y": None, "rot": None,
                    "scaling": None}
-            if r.random() < 0.6:
-                geo.update({"x": g_real(r), "y": g_real(r), "rot": g_state_angle(r), "scaling": r.choice([1, 1.0, 0.5, g_pos_real(r)])})
+            p_ = r.choice([0.0, 0.5, 0.5, 1.0])
+            for k_, f_ in (("x", lambda: g_real(r)), ("y", lambda: g_real(r)), ("rot", lambda: g_state_angle(r)),
+                           ("scaling", lambda: r.choice([1, 1.0, 0.5, g_pos_real(r)]))):
+                if r.random() < p_:
+                    geo[k_] = f_()
             loc["geo"] = geo
         if r.random() < 0.6:
             env = {"time": None, "time_of_day": None, "weather": None, "underground": None}
             if r.random() < 0.6:
                 env["time"] = {"h": r.randint(0, 23), "m": r.randint(0, 59), "day": None, "month": None, "year": None}
-                if r.random() < 0.4:
-                    env["time"].update({"day": r.randint(1, 28), "month": r.randint(1, 12), "year": r.randint(1990, 2040)})
+                for k_, f_ in (("day", lambda: r.choice([1, 31, r.randint(1, 28)])), ("month", lambda: r.choice([1, 12, r.randint(1, 12)])),
+                               ("year", lambda: r.choice([1, 2022, 1970, r.randint(1990, 2040)]))):
+                    if r.random() < 0.5:                    # all 8 subsets of {day, month, year}, equally likely
+                        env["time"][k_] = f_()
             if r.random() < 0.6:
                 env["time_of_day"] = r.choice(T["TimeOfDay"])
             if r.random() < 0.6:
@@ -481,8 +492,10 @@ def gen_spec(r, size="normal"):
         k = r.random()
         if k < 0.55:
             s = {"k": "rect", "l": g_pos_real(r), "w": g_pos_real(r), "c": None, "o": None}   # Rectangle(l, w): defaults
-            if r.random() < 0.3:
+            p_ = r.choice([0.0, 0.0, 0.5, 1.0])                                               # centre / orientation one by one
+            if r.random() < p_:
                 s["c"] = g_point(r)
+            if r.random() < p_:
                 s["o"] = g_angle(r)
             return s
         return g_shape(r, basic_only=True)
@@ -602,29 +615,30 @@ def b_set_pred(p):
     return SetBasedPrediction(p["t0"], [Occupancy(b_int_eoi(o["t"]), b_shape(o["shape"])) for o in p["occ"]])
 
 
+# optional groups whose members are given / left at the constructor default one by one (spec key -> constructor argument)
+LOC_ARGS = (("geo_name_id", "geo_name_id"), ("lat", "gps_latitude"), ("lon", "gps_longitude"))
+GEO_ARGS = (("x", "x_translation"), ("y", "y_translation"), ("rot", "z_rotation"), ("scaling", "scaling"))
+DATE_ARGS = ("day", "month", "year")
+
+
 def b_location(loc):
     from commonroad.common.util import Time
     from commonroad.scenario.scenario import (Environment, GeoTransformation, Location, TimeOfDay, Underground, Weather)
     if loc is None:
         return None
     kw = {}
-    if loc.get("geo_name_id") is not None:
-        kw.update(geo_name_id=loc["geo_name_id"], gps_latitude=loc["lat"], gps_longitude=loc["lon"])
+    kw.update({a_: loc[k_] for k_, a_ in LOC_ARGS if loc.get(k_) is not None})
     if loc.get("geo") is not None:
         g = loc["geo"]
         gk = {"geo_reference": g["ref"]}
-        if g.get("x") is not None:
-            gk.update(x_translation=g["x"], y_translation=g["y"], z_rotation=g["rot"], scaling=g["scaling"])
+        gk.update({a_: g[k_] for k_, a_ in GEO_ARGS if g.get(k_) is not None})
         kw["geo_transformation"] = GeoTransformation(**gk)
     if loc.get("env") is not None:
         e = loc["env"]
         ek = {}
         if e.get("time") is not None:
             t = e["time"]
-            tk = {}
-            if t.get("day") is not None:
-                tk = {"day": t["day"], "month": t["month"], "year": t["year"]}
-            ek["time"] = Time(t["h"], t["m"], **tk)
+            ek["time"] = Time(t["h"], t["m"], **{k_: t[k_] for k_ in DATE_ARGS if t.get(k_) is not None})
         if e.get("time_of_day") is not None:
             ek["time_of_day"] = TimeOfDay[e["time_of_day"]]
         if e.get("weather") is not None:
@@ -841,13 +855,13 @@ def build(sp):
             g = loc["geo"]
             if setters:
                 geo = GeoTransformation(g["ref"])
-                if g.get("x") is not None:
-                    geo.x_translation, geo.y_translation, geo.z_rotation, geo.scaling = R(g["x"]), R(g["y"]), R(g["rot"]), R(g["scaling"])
+                for k_, a_ in GEO_ARGS:
+                    if g.get(k_) is not None:
+                        setattr(geo, a_, R(g[k_]))
                 again(geo, "geo_reference", "x_translation", "y_translation", "z_rotation", "scaling")
             else:
                 gk = {"geo_reference": g["ref"]}
-                if g.get("x") is not None:
-                    gk.update(x_translation=R(g["x"]), y_translation=R(g["y"]), z_rotation=R(g["rot"]), scaling=R(g["scaling"]))
+                gk.update({a_: R(g[k_]) for k_, a_ in GEO_ARGS if g.get(k_) is not None})
                 geo = GeoTransformation(**gk)
         if loc.get("env") is not None:
             e = loc["env"]
@@ -857,12 +871,12 @@ def build(sp):
                 if setters:
                     tm = Time(0, 0)
                     tm.hours, tm.minutes = t["h"], t["m"]
-                    if t.get("day") is not None:
-                        tm.day, tm.month, tm.year = t["day"], t["month"], t["year"]
+                    for k_ in DATE_ARGS:
+                        if t.get(k_) is not None:
+                            setattr(tm, k_, t[k_])
                     ek["time"] = again(tm, "hours", "minutes", "day", "month", "year")
                 else:
-                    tk = {"day": t["day"], "month": t["month"], "year": t["year"]} if t.get("day") is not None else {}
-                    ek["time"] = Time(t["h"], t["m"], **tk)
+                    ek["time"] = Time(t["h"], t["m"], **{k_: t[k_] for k_ in DATE_ARGS if t.get(k_) is not None})
             if e.get("time_of_day") is not None:
                 ek["time_of_day"] = TimeOfDay[e["time_of_day"]]
             if e.get("weather") is not None:
@@ -878,16 +892,16 @@ def build(sp):
                 env = Environment(**ek)
         if setters:
             lo = Location()
-            if loc.get("geo_name_id") is not None:
-                lo.geo_name_id, lo.gps_latitude, lo.gps_longitude = loc["geo_name_id"], R(loc["lat"]), R(loc["lon"])
+            for k_, a_ in LOC_ARGS:
+                if loc.get(k_) is not None:
+                    setattr(lo, a_, loc[k_] if k_ == "geo_name_id" else R(loc[k_]))
             if geo is not None:
                 lo.geo_transformation = geo
             if env is not None:
                 lo.environment = env
             return again(lo, "geo_name_id", "gps_latitude", "gps_longitude", "geo_transformation", "environment")
         kw = {}
-        if loc.get("geo_name_id") is not None:
-            kw.update(geo_name_id=loc["geo_name_id"], gps_latitude=R(loc["lat"]), gps_longitude=R(loc["lon"]))
+        kw.update({a_: loc[k_] if k_ == "geo_name_id" else R(loc[k_]) for k_, a_ in LOC_ARGS if loc.get(k_) is not None})
         if geo is not None:
             kw["geo_transformation"] = geo
         if env is not None:
